@@ -274,8 +274,10 @@ impl Prop for C11 {
                 }
             }
             _ => {
-                // an image that does not open intact (e.g. some crash images) has no baseline
+                // the property is about prefixes of VALID files: an image that does not open
+                // intact has no baseline and is not in its domain
                 st.inc("intact_image_does_not_open");
+                return out;
             }
         }
         st.add("baseline_samples", base.len() as u64);
